@@ -12,6 +12,7 @@ use vcommon::*;
 mod modes;
 mod modes_immix;
 mod modes_oom;
+mod modes_refs;
 mod modes_space;
 mod prog;
 
@@ -195,6 +196,9 @@ impl<const V: u32> Driver<V> {
                 memory_manager::object_reference_write_pre::<ShadowVM<V>>(mu, src_o, slot, tgt_o);
                 store_word(field_addr(src, k), b_val);
             }
+        }
+        if QUIET_ALLOC.load(Ordering::Relaxed) {
+            return;
         }
         ev(Obj::new("Write")
             .int("m", m as i64)
